@@ -63,11 +63,17 @@ def _check_main(run, P):
     run.do(_no_recursion, run, P)
     run.do(lowering_table, run, P, "C05.table")
     run.do(_walker, run, P)
+    simplifier_clauses(run, P, "C05.simplify")
+
+
+def simplifier_clauses(run, P, dst):
+    """The clauses of C06 (the simplifier keeps what runs, and its order), evaluated
+    under another property's rule id."""
     from . import c06
-    from .c01 import _alias
-    for src in ("C06.splice", "C06.pop", "C06.keep", "C06.neg", "C06.same", "C06.merge",
-                "C06.const", "C06.post", "C06.pre", "C06.identity", "C06.flat", "C06.ends",
-                "C06.handlers", "C06.lost"):
+    srcs = ("C06.splice", "C06.pop", "C06.keep", "C06.neg", "C06.same", "C06.merge",
+            "C06.const", "C06.post", "C06.pre", "C06.identity", "C06.flat", "C06.ends",
+            "C06.handlers", "C06.lost")
+    for src in srcs:
         run.rule_docs[src] = ""
         run.minimum[src] = 0
     n0 = len(run.obs)
@@ -80,7 +86,7 @@ def _check_main(run, P):
     run.do(c06._identity, run, P)
     run.do(c06._flat, run, P)
     for o in run.obs[n0:]:
-        o.rule = "C05.simplify"
+        o.rule = dst
     for src in list(run.rule_docs):
         if src.startswith("C06."):
             del run.rule_docs[src]
